@@ -771,6 +771,65 @@ def async_wrap_and_then(ctx, T, depth, tail):
     return (a, Res(u))
 
 
+def stream_cands(ctx, S, depth, tail):
+    """receiver is a stream of T: StreamExt / TryStreamExt combinators; the future-producing ones end the stream"""
+    T = S[1]
+    c = []
+    W = ctx.p.get('ops', {})
+
+    def w(name, base):
+        return base * W.get(name, 1.0)
+
+    def Str(t):
+        return ('Str', t)
+    small = size_of(T) < 4
+    c.append((w('map', 3), lambda: (Act('|>', 'method', 'map', [cb(ctx, 'am', [T], T, tf=T)]), S)))
+    c.append((w('map', 0.7), lambda: (Act('|>', 'method', 'map', [flat_cb(ctx, T)]), Str(TOK))))
+    c.append((w('filter', 2.5), lambda: (Act('?>', 'method', 'filter', [gate_cb(ctx, 'ap')]), S)))
+    c.append((w('filter_map', 2.5), lambda: (Act('?|>', 'method', 'filter_map', [gate_cb(ctx, 'afm', args=[T])]), S)))
+    c.append((w('inspect', 1.5), lambda: (Act('??', 'method', 'inspect', [cb(ctx, 'ins', [T], UNIT, byref=True, tf=T)]), S)))
+    c.append((w('chain', 2.5), lambda: (Act('>@>', 'method', 'chain', [stream_operand(ctx, T)]), S)))
+    if small:
+        c.append((w('enumerate', 1.5), lambda: (raw('|n>', '', '.enumerate()'), Str(Pair(USIZE, T)))))
+        c.append((w('zip', 2), lambda: (Act('>^>', 'method', 'zip', [stream_operand(ctx, TOK)]), Str(Pair(T, TOK)))))
+    # terminal (future-producing) combinators
+    c.append((w('collect', 3), lambda: (raw('=>[]', 'Vec<_>', '.collect::<Vec<_>>()'), Vec(T))))
+    c.append((w('fold', 2.5), lambda: (Act('^@', 'method', 'fold', [value_operand(ctx, TOK), gate_cb(ctx, 'af2', args=[TOK, T])]), TOK)))
+    if T[0] == 'Pair':
+        A, B = T[1], T[2]
+        c.append((w('unzip', 2.5), lambda: (raw('<->', '%s, %s, Vec<%s>, Vec<%s>' % (rs(A), rs(B), rs(A), rs(B)),
+                                                  '.unzip::<%s, %s, Vec<%s>, Vec<%s>>()' % (rs(A), rs(B), rs(A), rs(B))), Pair(Vec(A), Vec(B)))))
+    if T[0] == 'Res' and is_val(T[1]):
+        U = T[1]
+        c.append((w('try_fold', 3), lambda: (Act('?^@', 'method', 'try_fold', [value_operand(ctx, TOK), gate_cb(ctx, 'atf2', failable=True, args=[TOK, U])]), Res(TOK))))
+        c.append((w('and_then', 3), lambda: (Act('=>', 'method', 'and_then', [gate_cb(ctx, 'aat', failable=True, args=[U])]), S)))
+        c.append((w('map_err', 2), lambda: (Act('!>', 'method', 'map_err', [cb(ctx, 'me', [ETOK], ETOK)]), S)))
+    wrapw = ctx.p.get('wrappers', 0.5) if depth < ctx.p.get('wrap_depth', 2) else 0.0
+    if wrapw > 0:
+        c.append((w('map_wrap', 1.5) * wrapw, lambda: wrap_val(ctx, T, '|>', 'map', 'val', lambda u: Str(u), depth, False)))
+    return [x for x in c if x[0] > 0]
+
+
+def stream_operand(ctx, T):
+    e = ctx.ev('Init', T[0] in ('Opt', 'Res'))
+    expr = 'w::sinit::<%s>(%d)' % (rs(T), e)
+    if ctx.p.get('captures', 0.15) > 0 and not ctx.in_capture and ctx.no_caps == 0 and ctx.chance(ctx.p.get('captures', 0.15)):
+        return Operand(expr, cap=new_cap(ctx))
+    return Operand(expr)
+
+
+def end_stream(ctx, acts, S):
+    """a step must end in a future: consume the stream"""
+    acts = list(acts)
+    close_tail(acts)
+    T = S[1]
+    if ctx.chance(0.5):
+        acts.append(raw('=>[]', 'Vec<_>', '.collect::<Vec<_>>()'))
+        return acts, Vec(T)
+    acts.append(Act('^@', 'method', 'fold', [value_operand(ctx, TOK), gate_cb(ctx, 'af2', args=[TOK, T])]))
+    return acts, TOK
+
+
 PINNING = ('and_then', 'or_else', 'map_err')
 
 
@@ -781,7 +840,7 @@ def gen_async_acts(ctx, X, n, depth, tail, pinned=True):
     acts = []
     for i in range(n):
         last = (i == n - 1)
-        cands = async_cands(ctx, X, depth, tail and last)
+        cands = stream_cands(ctx, X, depth, tail and last) if X[0] == 'Str' else async_cands(ctx, X, depth, tail and last)
         if not pinned:
             cands = [x for x in cands if len(x) < 3 or x[2] != 'discards_err']
         if not cands:
@@ -800,6 +859,8 @@ def gen_async_acts(ctx, X, n, depth, tail, pinned=True):
         X = nx
         if size_of(X) > 6:
             break
+    if X[0] == 'Str':
+        acts, X = end_stream(ctx, acts, X)
     return acts, X
 
 
@@ -1025,6 +1086,12 @@ def async_initial(ctx, inv, t0):
         else:
             acts.append(Act('->', 'then', operands=[gate_cb(ctx, 'lift')]))
         return init, cur, acts
+    if ctx.chance(ctx.p.get('streams', 0.0)):
+        T = ctx.pick_w([(4, TOK), (2, Res(TOK)), (1.5, Pair(TOK, TOK)), (1, Opt(TOK)), (0.7, Vec(TOK))])
+        e = ctx.ev('Init', T[0] in ('Opt', 'Res'))
+        expr = 'w::sinit::<%s>(%d)' % (rs(T), e)
+        op = Operand(expr, cap=new_cap(ctx)) if (ctx.p.get('captures', 0.15) > 0 and ctx.chance(ctx.p.get('captures', 0.15))) else Operand(expr)
+        return op, ('Str', T), []
     e = ctx.ev('Init', t0[0] in ('Opt', 'Res'))
     expr = 'w::ainit::<%s>(%d)' % (rs(t0), e)
     if ctx.p.get('captures', 0.15) > 0 and ctx.chance(ctx.p.get('captures', 0.15)):
@@ -1463,11 +1530,11 @@ WRAP_NAMES = ['map_wrap', 'and_then_wrap', 'filter_wrap', 'inspect_wrap', 'filte
 
 PROFILES = {
     'ops': dict(branches=(1, 2), depth=(1, 2), acts=(2, 6), wrappers=0.25, wrap_depth=1, captures=0.1, names=0.0, handler=0.1,
-                closures=0.3, turbofish=0.15, sync_prefix=0.5),
+                closures=0.3, turbofish=0.15, sync_prefix=0.5, streams=0.3),
     'wrap': dict(branches=(1, 2), depth=(1, 2), acts=(1, 4), wrappers=3.0, wrap_depth=3, captures=0.2, names=0.0, handler=0.1,
-                 closures=0.15, turbofish=0.05, sync_prefix=0.6),
+                 closures=0.15, turbofish=0.05, sync_prefix=0.6, streams=0.15),
     'steps': dict(branches=(2, 5), depth=(1, 4), acts=(0, 2), wrappers=0.3, wrap_depth=1, captures=0.3, names=0.45, handler=0.3,
-                  closures=0.1, turbofish=0.05, sync_prefix=0.3, snapshots=0.7),
+                  closures=0.1, turbofish=0.05, sync_prefix=0.3, snapshots=0.7, streams=0.15),
     'try': dict(branches=(2, 4), depth=(1, 4), acts=(1, 3), wrappers=0.3, wrap_depth=1, captures=0.15, names=0.2, handler=0.4,
                 closures=0.1, turbofish=0.0, sync_prefix=0.3,
                 ops={'and_then': 3, 'or_else': 2, 'or': 1.5, 'try_fold': 2, 'then': 0.5, 'inspect': 0.5}),
